@@ -101,8 +101,18 @@ extern int mpt_queue_recv(MPT_STRUCT(decode_queue) *qu)
 	if (mpt_qpre(&qu->data, max) < 0) {
 		return MPT_ERROR(MissingBuffer);
 	}
-	/* correct data area offsets */
-	qu->_state.data.pos += max;
+	/* new space extends work area: decoded data keeps offset */
+	if ((len = qu->_state.data.len)) {
+		uint8_t buf[256];
+		size_t pos = qu->_state.data.pos;
+		while (len) {
+			size_t part = len < sizeof(buf) ? len : sizeof(buf);
+			mpt_queue_get(&qu->data, pos + max, part, buf);
+			mpt_queue_set(&qu->data, pos, part, buf);
+			pos += part;
+			len -= part;
+		}
+	}
 	qu->_state.curr += max;
 	
 	/* retry with bigger prefix space */
